@@ -8,3 +8,15 @@ package ers
 //@   mode any
 //@   trusted builds an error value from its arguments; only non-nilness is used
 //@   ensures result != nil
+
+// ers.Is: true iff errors.Is holds for some target (a nil error matches only
+// a nil target).
+//@ func Is
+//@   props C03 C12
+//@   ensures result == (exists i: int :: 0 <= i && i < len(targets) && !(err == nil && targets[i] != nil) && errIs(err, targets[i]))
+//@   loop 1 invariant 0 - 1 <= rangeindex && rangeindex < len(targets) && (len(targets) == 0 ==> rangeindex == 0 - 1)
+//@   loop 1 invariant forall j: int :: 0 <= j && j <= rangeindex ==> (err == nil && targets[j] != nil) || !errIs(err, targets[j])
+
+//@ func IsExpiredContext
+//@   props C03
+//@   ensures result == (err != nil && (errIs(err, context_Canceled) || errIs(err, context_DeadlineExceeded)))
